@@ -111,3 +111,8 @@ package account
 //@   assert@call(AddBalance,0): ($arg0 == as(acctobj(ctrler.acctLedger, lkey(content(ctx.blockInfo.Header.ProposerAddress)), 1), ptr(Account)) || fresh($arg0)) && u($arg1) == old(u(ctx.feeSum)) && u($arg1) > 0   [C16,C02]
 //@   assert@call(setAccountCommittable,0): $arg2 == true                                                      [C06,C16]
 //@   ensures old(u(ctx.feeSum)) == 0 ==> (forall x :: old(allocated(x)) ==> u(x) == old(u(x)))                [C02]
+
+// genesis loading: no claim (frame only), so that callers are checked against this and not against the body
+//@ func (ctrler *AcctCtrler) InitLedger(req)
+//@   trusted
+//@   modifies everything
